@@ -358,9 +358,9 @@ class Moveq(M68kInstruction):
 Orb = make_ea_dn("orb", 0b1000, opmode=0b000)
 Orw = make_ea_dn("orw", 0b1000, opmode=0b001)
 Orl = make_ea_dn("orl", 0b1000, opmode=0b010)
-Subb = make_ea_dn("subb", 0b1101, opmode=0b000)
-Subw = make_ea_dn("subw", 0b1101, opmode=0b001)
-Subl = make_ea_dn("subl", 0b1101, opmode=0b010)
+Subb = make_ea_dn("subb", 0b1001, opmode=0b000)
+Subw = make_ea_dn("subw", 0b1001, opmode=0b001)
+Subl = make_ea_dn("subl", 0b1001, opmode=0b010)
 
 Jsr = make_ea("jsr", 0x4E, 2)
 
